@@ -8,6 +8,9 @@ CONSTANTS
  ResetInTransition = TRUE
  ResetBeforeWindow = FALSE
  StrobeInTransition = TRUE
+ PartialOutcomes = TRUE
+ ShallowChangeTest = FALSE
+ CacheFromPoller = FALSE
  FixLevel = 2
  MaxLen = 9
  MaxP = 3
@@ -15,5 +18,5 @@ CONSTANTS
  MaxW = 2
  Modes = {"sched"}
 SPECIFICATION SSpec
-INVARIANTS Export NoStaleClock NoStaleObs NoticedInv
+INVARIANTS Export NoStaleClock NoStaleObs NoticedInv NoOverwrite
 CHECK_DEADLOCK FALSE
